@@ -367,10 +367,35 @@ def bounded(pr):
         bm = bonds.BondMaker()
         bm.find_bonds_for_atoms_using_boxes(atoms)
         ref = bonds.BondMaker()
+
+        def indep_rule(a, b):
+            # the pairwise criterion written out (the contract of check_distance, C11-CD), from the CURRENT coordinates
+            sq = (a.x - b.x) ** 2 + (a.y - b.y) ** 2 + (a.z - b.z) ** 2
+            hc = [a.element, b.element].count('H')
+            if sq > ref.max_sq_distance:
+                return False
+            if hc == 1:
+                return sq < ref.h_dist_squared
+            key = '%s-%s' % (a.element, b.element)
+            if hc == 0 and sq < ref.default_dist_squared:
+                return True
+            return key in ref.distances_squared and sq < ref.distances_squared[key]
+        if k % 4 == 0:
+            # the SAME atom objects, moved (contracted towards the first atom) and searched again
+            for a in atoms[1:]:
+                a.x, a.y, a.z = [round(atoms[0].__dict__[c] + 0.8 * (a.__dict__[c] - atoms[0].__dict__[c]), 3) for c in 'xyz']
+            for a in atoms:
+                a.bonded_atoms = []
+                a.cysteine_bridge = False
+            bonds.BondMaker().find_bonds_for_atoms_using_boxes(atoms)
         for i in range(n):
             for j in range(i + 1, n):
                 ev += 1
-                rule = ref.check_distance(atoms[i], atoms[j])
+                rule = indep_rule(atoms[i], atoms[j])
+                if ref.check_distance(atoms[i], atoms[j]) != rule and len(viol) < 3:
+                    viol.append({'what': 'check_distance(%s%r, %s%r) = %r, pairwise criterion on the current coordinates: %r' % (
+                        atoms[i].element, (atoms[i].x, atoms[i].y, atoms[i].z), atoms[j].element,
+                        (atoms[j].x, atoms[j].y, atoms[j].z), not rule, rule), 'replay': None})
                 got = (atoms[j] in atoms[i].bonded_atoms, atoms[i] in atoms[j].bonded_atoms)
                 classes.add((rule, atoms[i].element, atoms[j].element))
                 if got != (rule, rule) and len(viol) < 3:
